@@ -129,8 +129,8 @@ def gen_op(rng, state):
     names = sorted(m["params"])
     op = rng.choices(
         ["set_values", "set_lower", "set_upper", "set_fixed", "set_label", "reset1", "reset_all", "copy", "deepcopy", "copy_circuit",
-         "text", "set_default", "refused", "sub_edit"],
-        [3, 3.5, 3.5, 1.5, 1, 1.5, 1.2, 1.5, 1.5, 1, 1.5, 1, 2.5, 0.6],
+         "text", "set_default", "refused", "sub_edit", "mutate_returned"],
+        [3, 3.5, 3.5, 1.5, 1, 1.5, 1.2, 1.5, 1.5, 1, 1.5, 1, 2.5, 0.6, 0.8],
     )[0]
     if not names and op in ("set_values", "set_lower", "set_upper", "set_fixed", "reset1", "set_default", "refused"):
         op = "copy"
@@ -169,6 +169,8 @@ def gen_op(rng, state):
         return {"op": "set_default", "slot": i, "key": k, "value": rng.choice(cands) if cands else dv}
     if op == "sub_edit":
         return {"op": "sub_edit", "slot": i, "value": rng.choice([2.0, 7.0, 0.25])}
+    if op == "mutate_returned":
+        return {"op": "mutate_returned", "slot": i, "getter": rng.choice(["get_values", "get_lower_limits", "get_upper_limits", "are_fixed", "get_default_values", "get_default_lower_limits", "get_default_upper_limits", "are_fixed_by_default"])}
     kind = rng.choice(["unknown_key", "odd_positional", "key_twice", "non_numeric", "none_value", "lower_ge_upper", "upper_le_lower",
                        "nan_lower", "nan_upper", "fixed_non_bool", "label_non_str", "label_non_ascii", "label_digits"])
     return {"op": "refused", "slot": i, "kind": kind, "key": rng.choice(names), "which": rng.choice(["set_values", "set_lower_limits", "set_upper_limits"])}
@@ -455,6 +457,13 @@ def apply(state, rec):
         e.set_values(**{key: rec["value"]})
         stats["restarts"]["subcircuit_edit"] += 1
         m["sub"][k] = con.to_string(17)
+    elif op == "mutate_returned":
+        # aliasing action by the caller: a dictionary handed out by a getter is the caller's to scribble on
+        d = getattr(obj, rec["getter"])()
+        stats["restarts"]["caller_mutates_returned_dict"] += 1
+        for k in list(d):
+            d[k] = True if "fixed" in rec["getter"] else 123.456
+        d["bogus"] = 1.0
     elif op == "refused":
         kind = rec["kind"]
         k = rec["key"] if rec["key"] in params else (sorted(params)[0] if params else None)
